@@ -20,7 +20,7 @@ import tempfile
 import numpy as np
 
 from .calib_util import FloatSpec, f2b, fl, num, vals, err, quiet, RTOL
-from .c07 import mkcal, ctor_line
+from .c07 import mkcal, ctor_line, rep_scalar, order_rows, TABLE_REPRS, NUM_REPRS
 
 LIN_TOL = 1e-9
 FILT_TOL = 1e-9        # model vs implementation for recursive filters (relative to the largest sample)
@@ -36,6 +36,11 @@ CHIRP_TOL = 1e-9
 BLCLICK_TOL = 1e-10
 WAV_TOL = 1e-6
 
+# wav playback through a calibration object whose gain was changed after an earlier load_wav with the same arguments:
+# see notes/C08.md "pending defect" (fast_cache keys on the calibration *object*); the demand is switched on once the
+# integrator has decided (VERIF_PENDING=1 reproduces it)
+PENDING_WAV_REGAIN = os.environ.get('VERIF_PENDING') == '1'
+
 _WAV = {}
 
 
@@ -47,8 +52,11 @@ def wav_path(seed, dtype):
         d = tempfile.mkdtemp(prefix='psiverif_c08_')
         rs = np.random.RandomState(seed)
         x = rs.randn(2000) * 0.2 * np.hanning(2000)
-        if dtype == 'int16':
-            x = np.clip(x * 32767, -32768, 32767).astype(np.int16)
+        if dtype == 'uint8':
+            x = np.clip(x * 127 + 128, 0, 255).astype(np.uint8)
+        elif dtype in ('int16', 'int32'):
+            ii = np.iinfo(dtype)
+            x = np.clip(x * ii.max, ii.min, ii.max).astype(dtype)
         else:
             x = x.astype(np.float32)
         p = os.path.join(d, f'w{seed}_{dtype}.wav')
@@ -83,21 +91,40 @@ def chunks_of(c):
     return c.get('chunks') or [c['n']]
 
 
+def _run(f, c):
+    """play a factory in the case's chunks; with `reuse` the factory has been used before (some samples drawn, then
+    reset) -- the property is about the object as the caller finds it, not only about a brand-new one"""
+    if c.get('reuse'):
+        for n in c['reuse']:
+            f.next(n)
+        f.reset()
+    return np.concatenate([f.next(n) for n in chunks_of(c)]) if chunks_of(c) else np.zeros(0)
+
+
 def build(c, L, pol, cal=None):
     """The real stimulus for case `c` at level L and polarity pol."""
     from psiaudio import stim
     cal = mkcal(c['cal']) if cal is None else cal
     fs, k = c['fs'], c['kind']
+    # the caller's spelling of the same numbers: whole numbers as Python / NumPy integers, NumPy floats
+    fs = rep_scalar(fs, c.get('fsrepr'))
+    L = rep_scalar(L, c.get('Lrepr'))
+    if c.get('polrepr') == 'float':
+        pol = float(pol)
+    elif c.get('polrepr') == 'npint':
+        pol = np.int64(pol)
     if k == 'tone':
+        if c.get('tonekw') == 'duration' and not c.get('offset'):
+            return stim.tone(fs, c['f'], L, c['ph'], pol, cal, duration=(c['n'] + 0.25) / c['fs'])
         return stim.tone(fs, c['f'], L, phase=c['ph'], polarity=pol, calibration=cal, samples=c['n'],
                          offset=c.get('offset', 0))
     if k == 'tone_factory':
         f = stim.ToneFactory(fs, c['f'], L, phase=c['ph'], polarity=pol, calibration=cal)
-        return np.concatenate([f.next(n) for n in chunks_of(c)])
+        return _run(f, c)
     if k == 'ramped':
         f = stim.Cos2EnvelopeFactory(fs, duration=c['n'] / fs, rise_time=c['n'] / fs / 4, input_factory=stim.ToneFactory(
             fs, c['f'], L, phase=c['ph'], polarity=pol, calibration=cal))
-        return np.concatenate([f.next(n) for n in chunks_of(c)])
+        return _run(f, c)
     if k == 'sam':
         return stim.sam_tone(fs, c['fc'], c['fm'], L, phase=c['ph'], phase_lb=c['phl'], phase_ub=c['phu'],
                              polarity=pol, calibration=cal, samples=c['n'], offset=c.get('offset', 0),
@@ -105,7 +132,7 @@ def build(c, L, pol, cal=None):
     if k == 'sam_factory':
         f = stim.SAMToneFactory(fs, c['fc'], c['fm'], L, phase=c['ph'], phase_lb=c['phl'], phase_ub=c['phu'],
                                 polarity=pol, eq_power=c['eq_power'], equalize=c['equalize'], calibration=cal)
-        return np.concatenate([f.next(n) for n in chunks_of(c)])
+        return _run(f, c)
     if k == 'chirp':
         if c.get('factory'):
             return stim.ChirpFactory(fs, c['f0'], c['f1'], c['n'] / fs, L, cal, window=c['window']).waveform
@@ -119,31 +146,47 @@ def build(c, L, pol, cal=None):
     if k == 'bbn':
         if c.get('chunks'):
             f = stim.BroadbandNoiseFactory(fs, L, seed=c['seed'], polarity=pol, calibration=cal)
-            return np.concatenate([f.next(n) for n in chunks_of(c)])
+            return _run(f, c)
         return stim.broadband_noise(fs, L, c['n'] / fs, seed=c['seed'], polarity=pol, calibration=cal)
     if k == 'notch':
         if c.get('chunks'):
             nf = stim.BroadbandNoiseFactory(fs=fs, level=L, seed=c['seed'], polarity=pol, calibration=cal)
             f = stim.NotchFilterFactory(fs=fs, notch_frequency=c['fn'], q=c['q'], input_factory=nf)
-            return np.concatenate([f.next(n) for n in chunks_of(c)])
+            return _run(f, c)
         return stim.notch_noise(fs, c['fn'], c['q'], L, c['n'] / fs, seed=c['seed'], polarity=pol, calibration=cal)
     if k == 'bln':
         if c.get('chunks'):
             f = stim.BandlimitedNoiseFactory(fs, c['seed'], L, c['fl'], c['fh'], 1, 1, 80, polarity=pol, calibration=cal,
                                             discard_initial_samples=c.get('discard', True))
-            return np.concatenate([f.next(n) for n in chunks_of(c)])
+            return _run(f, c)
         return stim.bandlimited_noise(fs, L, c['fl'], c['fh'], c['n'] / fs, polarity=pol, seed=c['seed'], calibration=cal)
     if k == 'fir':
         return stim.bandlimited_fir_noise(fs, L, c['fl'], c['fh'], c['n'] / fs, ntaps=c['ntaps'], polarity=pol,
                                           seed=c['seed'], calibration=cal, equalize=c['equalize'])
     if k == 'shaped':
         gains = {float(a): float(b) for a, b in c['gains']}
-        return stim.shaped_noise(fs, L, gains, c['n'] / fs, ntaps=c['ntaps'], polarity=pol, seed=c['seed'],
-                                 calibration=cal)
+        keep = dict(gains)
+        w = stim.shaped_noise(fs, L, gains, c['n'] / fs, ntaps=c['ntaps'], polarity=pol, seed=c['seed'],
+                              calibration=cal)
+        if gains != keep:
+            raise AssertionError(f'shaped_noise modified the gains dictionary it was given: {keep} -> {gains}')
+        return w
     if k == 'wav':
         p = wav_path(c['seed'], c['dtype'])
+        if c.get('pathlib'):
+            import pathlib
+            p = pathlib.Path(p)
+        how = c.get('wavcall')
         if c.get('factory'):
-            return np.asarray(stim.WavFileFactory(fs, p, L, cal, normalization=c['norm']).waveform)
+            f = stim.WavFileFactory(fs, p, L, cal, c['norm']) if how == 'positional' else \
+                stim.WavFileFactory(fs, p, L, cal, normalization=c['norm'])
+            if c.get('chunks'):
+                return np.asarray(_run(f, c))            # what is played: next() in chunks (zero-padded past the end)
+            return np.asarray(f.waveform)
+        if how == 'positional':
+            return np.asarray(stim.load_wav(fs, p, L, cal, c['norm']))
+        if how == 'allkw':
+            return np.asarray(stim.load_wav(fs=fs, filename=p, level=L, calibration=cal, normalization=c['norm']))
         return np.asarray(stim.load_wav(fs, p, L, cal, normalization=c['norm']))
     raise ValueError(k)
 
@@ -160,6 +203,8 @@ def level_definition(c, cal, L, a):
     from psiaudio import util
     k = c['kind']
     fs, n = c['fs'], len(a)
+    if n == 0:
+        return None                 # an empty stimulus has no level
     if k in ('tone', 'tone_factory'):
         f = c['f']
         rms = float(util.rms(a))
@@ -226,9 +271,22 @@ def level_definition(c, cal, L, a):
     elif k == 'wav':
         sf = float(np.asarray(cal.get_sf(1e3, L)))
         if c['fs'] == 20000:
-            got = float(util.rms(a.astype(float))) if c['norm'] == 'rms' else float(np.max(a))
-            if abs(got - sf) > 1e-5 * sf:
-                return f"wav playback normalised to '{c['norm']}' reads {got!r}, get_sf(1e3, {L!r}) = {sf!r}"
+            a = np.asarray(a, dtype=float)[:2000]
+            if c['norm'] is None:
+                # "no rescaling is done": the stored samples (integer PCM mapped onto -1..1) times get_sf(1e3, level)
+                raw = wav_raw(c)
+                unit = raw.astype(float)
+                if raw.dtype != np.float32:
+                    ii = np.iinfo(raw.dtype)
+                    unit = (unit - ii.min) / (ii.max - ii.min) * 2 - 1
+                dev = float(np.max(np.abs(a - unit * sf)))
+                if dev > 1e-5 * sf * float(np.max(np.abs(unit))):
+                    return (f'wav playback without normalisation departs from (stored samples in the unit range) x '
+                            f'get_sf(1e3, {L!r}) = {sf!r} by {dev!r}')
+            else:
+                got = float(util.rms(a)) if c['norm'] == 'rms' else float(np.max(a))
+                if abs(got - sf) > 1e-5 * sf:
+                    return f"wav playback normalised to '{c['norm']}' reads {got!r}, get_sf(1e3, {L!r}) = {sf!r}"
     return None
 
 
@@ -295,6 +353,47 @@ def bln_state_residual(c, cal):
     return None
 
 
+def _same(a, b, tol, what):
+    if np.shape(a) != np.shape(b):
+        return f'{what}: shapes {np.shape(a)} vs {np.shape(b)}'
+    if len(a) == 0:
+        return None
+    a, b = np.asarray(a, dtype=float), np.asarray(b, dtype=float)
+    full = float(np.max(np.abs(b)))
+    dev = np.abs(a - b)
+    i = int(np.argmax(dev))
+    if not dev[i] <= tol * full:
+        return f'{what}: sample {i} is {float(a[i])!r}, expected {float(b[i])!r} (deviation {dev[i] / full if full else dev[i]:.3e} of full scale)'
+    return None
+
+
+def histories(c, L, a):
+    """the same request again after the caller has overwritten what it got; a calibration object whose gain is changed
+    after it was first used (fixed gain +g dB <=> x 10^(g/20) volts: C07 `getSf_add_fixedGain`)"""
+    tol = LIN_TOLS.get(c['kind'], LIN_TOL)
+    cal = mkcal(c['cal'])
+    first = build(c, L, 1, cal)
+    if isinstance(first, np.ndarray) and first.flags.writeable and first.size:
+        first[...] = 7.0                       # the caller re-uses the buffer it was handed
+    again = build(c, L, 1, cal)
+    f = _same(again, a, 0.0, 'the same stimulus requested again (after the caller overwrote the first one)')
+    if f:
+        return f
+    if c['kind'] == 'wav' and not PENDING_WAV_REGAIN:
+        return None
+    g = c.get('dG', 20.0)
+    G0 = cal.fixed_gain
+    cal.set_fixed_gain(G0 + g)
+    louder = build(c, L, 1, cal)
+    cal.set_fixed_gain(G0)
+    back = build(c, L, 1, cal)
+    f = _same(louder, 10 ** (g / 20) * np.asarray(a, dtype=float), tol,
+              f'calibration whose fixed gain was raised by {g!r} dB after first use (expected x{10 ** (g / 20)!r})')
+    if f:
+        return f
+    return _same(back, a, tol, f'calibration whose fixed gain was changed by {g!r} dB and set back')
+
+
 def check_property(c):
     L, d = c['L'], c['d']
     cal = mkcal(c['cal'])
@@ -318,30 +417,37 @@ def check_property(c):
             i = int(np.flatnonzero(n != -a)[0])
             return (f'polarity: sample {i} is {float(a[i])!r} at +1 and {float(n[i])!r} at -1 (not an exact negation; '
                     f'{int(np.sum(n != -a))} of {len(a)} samples differ, largest |sum| {float(np.max(np.abs(n + a)))!r})')
-    return level_definition(c, cal, L, a)
+    f = level_definition(c, cal, L, a)
+    if f:
+        return f
+    if c.get('hist', True):
+        return histories(c, L, a)
+    return None
 
 
 # ------------------------------------------------------------------ generation
 def gen_cal(rng, kind, fs, freqs):
     """a calibration that answers at the frequencies the stimulus needs"""
-    G = rng.choice([0.0, 0.0, round(rng.uniform(-40, 40), 2)])
+    G = rng.choice([0.0, 0.0, round(rng.uniform(-40, 40), 2), float(rng.randint(-40, 40))])
+    how = {'Grepr': rng.choice(NUM_REPRS), 'nrepr': rng.choice(NUM_REPRS), 'positional': rng.random() < 0.3}
     if kind == 'flat':
         return rng.choice([
-            {'c': 'from_spl', 'L': float(rng.choice([94, 100, 114])), 'v': rng.choice([1.0, 0.1, 2.0]), 'G': G},
-            {'c': 'flat', 'S': round(rng.uniform(60, 140), 2), 'G': G},
+            dict(how, c='from_spl', L=float(rng.choice([94, 100, 114])), v=rng.choice([1.0, 0.1, 2.0]), G=G),
+            dict(how, c='flat', S=round(rng.uniform(60, 140), 2), G=G),
             {'c': 'unity'},
         ])
     if kind == 'interp':
         knots = sorted({0.0, float(fs)} | {float(round(rng.uniform(1, fs - 1))) for _ in range(rng.randint(2, 6))})
-        return _table_repr(rng, {'c': 'interp', 'G': G, 'tbl': [[f, round(rng.uniform(70, 130), 2)] for f in knots]})
-    return _table_repr(rng, {'c': 'point', 'G': G,
-                             'tbl': [[float(f), round(rng.uniform(70, 130), 2)] for f in sorted(set(freqs))]})
-
-
-def _table_repr(rng, k):
-    """How the caller writes the table down: float lists (default), a list whose first sensitivity is a Python int
-    followed by non-integers, tuples, or ndarrays -- the same numbers in every case."""
-    r = rng.choice([None, None, 'intfirst', 'tuple', 'ndarray'])
+        rows = [[f, round(rng.uniform(70, 130), 2)] for f in knots]
+    else:
+        rows = [[float(f), round(rng.uniform(70, 130), 2)] for f in sorted(set(freqs))]
+    # the table as the caller wrote it down: ascending, descending or in measurement order; the container it is in;
+    # and whether the caller keeps using (overwrites) its own arrays afterwards
+    rows = [rows[i] for i in order_rows(rng, len(rows))]
+    k = dict(how, c=kind, G=G, tbl=rows, mutate_inputs=rng.random() < 0.4)
+    r = rng.choice(TABLE_REPRS)
+    if r == 'f32' and kind == 'point':
+        r = 'ndarray'               # (float32 frequency tables compare in single precision: see c07.gen_ctor)
     if r == 'intfirst':
         k['tbl'][0][1] = float(round(k['tbl'][0][1]))
     if r:
@@ -405,13 +511,60 @@ def gen_case(rng, kind, calkind, quick):
             c.update(ntaps=rng.choice([51, 101, 201]),
                      gains=[[0, -60], [1000, 0], [fs / 4, rng.choice([0, -10])], [fs / 2, -60]])
     elif kind == 'wav':
-        c.update(norm=rng.choice(['pe', 'rms']), dtype=rng.choice(['int16', 'float32']), seed=rng.randint(0, 3),
-                 factory=rng.random() < 0.3)
+        c.update(norm=rng.choice(['pe', 'rms', None]), dtype=rng.choice(['int16', 'float32', 'int32', 'uint8']),
+                 seed=rng.randint(0, 3), factory=rng.random() < 0.4,
+                 wavcall=rng.choice([None, 'positional', 'allkw']), pathlib=rng.random() < 0.3)
         c['fs'] = float(rng.choice([20000, 20000, 25000]))
+        if c['factory'] and rng.random() < 0.6:
+            c['chunks'] = rng.chunks(2000 if c['fs'] == 20000 else 2500, 4)     # played through next()
         need = [1e3]
     if calkind == 'point' and not need:
         calkind = 'interp'
     c['cal'] = gen_cal(rng, calkind, c['fs'], need)
+    # spelling of the numbers (same values), object histories
+    c.update(Lrepr=rng.choice(NUM_REPRS), fsrepr=rng.choice([None, 'int', 'np64']),
+             polrepr=rng.choice([None, None, 'float', 'npint']), dG=rng.choice([20.0, -6.0, round(rng.uniform(-30, 30), 1)]))
+    if kind == 'tone' and rng.random() < 0.3:
+        c['tonekw'] = 'duration'
+    if kind in ('tone_factory', 'ramped', 'sam_factory') or c.get('chunks'):
+        if rng.random() < 0.5:
+            c['reuse'] = [rng.randint(1, 300) for _ in range(rng.randint(1, 2))]     # drawn before a reset()
+    return c
+
+
+def gen_edge(rng, calkind):
+    """exact boundaries: empty and one-sample stimuli, level 0 and the ends of the level range, zero level step"""
+    kind = rng.choice(['tone', 'tone_factory', 'bbn', 'click', 'sam'])
+    c = gen_case(rng, kind, calkind, True)
+    c.pop('chunks', None)
+    c.pop('reuse', None)
+    c['n'] = rng.choice([0, 1, 2]) if kind != 'click' else 1
+    if kind == 'sam':
+        c['n'] = rng.choice([0, 1])
+        c['whole'] = False
+    if kind in ('tone', 'tone_factory'):
+        c['whole'] = False
+    c['L'] = rng.choice([0.0, -20.0, 120.0, -0.0])
+    c['d'] = rng.choice([0.0, 20.0, -20.0])
+    c['kind_note'] = 'edge'
+    return c
+
+
+def gen_big(rng, calkind):
+    """far beyond the usual sizes: 2^16..2^17-sample tones starting beyond sample 2^31, a 2^20-sample noise"""
+    kind = rng.choice(['tone', 'tone_factory', 'bbn'])
+    c = gen_case(rng, kind, calkind, True)
+    c.pop('chunks', None)
+    c.pop('reuse', None)
+    if kind == 'bbn':
+        c.update(n=2 ** 20 + rng.randint(0, 3), huge=True)
+        c['chunks'] = [3, 2 ** 20 - 5, c['n'] - 2 ** 20 + 2]           # tiny and huge requests mixed
+    else:
+        n = rng.randint(2 ** 16, 2 ** 17)
+        c.update(n=n, whole=False, big=True, offset=rng.choice([0, 2 ** 31 + rng.randint(0, 10 ** 6), 2 ** 33 + 1]))
+        if kind == 'tone_factory':
+            c['offset'] = 0
+            c['chunks'] = [1, n - 4, 3]
     return c
 
 
@@ -441,7 +594,11 @@ class C08(FloatSpec):
             'notch_noise/NotchFilterFactory, bandlimited_noise/-Factory, bandlimited_fir_noise, shaped_noise, '
             'load_wav/WavFileFactory) x calibration {flat, interp, point where the stimulus asks single frequencies} x '
             'level -20..120 x level step x polarity x seed x chunking. Non-trivial = the waveform is not all zero; '
-            'distinct = distinct case hash.')
+            'distinct = distinct case hash. Hardening: calibration tables in any order and container; level / fs / gain / '
+            'polarity as Python and NumPy ints and floats; wav normalisation None / pe / rms x int16 / int32 / uint8 / float32 x '
+            'positional / keyword / pathlib, played through next(); factories re-used after reset; the same request after '
+            'the caller overwrote the result; fixed gain changed after first use and set back; 0/1/2-sample stimuli, level '
+            '0 / -20 / 120, step 0; tones of 2^16..2^17 samples starting beyond sample 2^31 and 2^20-sample noise.')
 
     def gen(self, rng, tier):
         quick = tier == 'quick'
@@ -450,17 +607,28 @@ class C08(FloatSpec):
             for kind in KINDS:
                 for calkind in ('flat', 'interp', 'point'):
                     yield gen_case(rng, kind, calkind, quick)
+        for r in range(6 if quick else 40):
+            yield gen_edge(rng, ('flat', 'interp', 'point')[r % 3])
+        for r in range(2 if quick else 8):
+            yield gen_big(rng, ('flat', 'interp', 'point')[r % 3])
 
     # ---------------------------------------------------------------- model
     def model_lines(self, c):
         with quiet():
-            return self._model_lines(c)
+            try:
+                return self._model_lines(c)
+            except Exception as e:
+                # the model's cells (scale factors, filter coefficients, unit draws) come from the library's own
+                # primitives; if one of them raises, the case is still evaluated: the oracle reports the failure
+                return [ctor_line(c['cal']), f'cells-unavailable {type(e).__name__}']
 
     def _model_lines(self, c):
         from psiaudio import stim
         cal = mkcal(c['cal'])
         fs, k, L, pol = c['fs'], c['kind'], c['L'], float(c['pol'])
         out = [ctor_line(c['cal'])]
+        if c.get('huge'):
+            return out              # 2^20 samples: the property is checked on the implementation only
 
         def sf_at(f):
             return float(np.asarray(cal.get_sf(f, L)))
@@ -518,10 +686,10 @@ class C08(FloatSpec):
             if raw is not None:
                 sf = sf_at(1e3)
                 if raw.dtype == np.float32:
-                    out.append(f"wav {c['norm']} {f2b(sf)} {fl(raw.astype(float))}")
+                    out.append(f"wav {c['norm'] or 'none'} {f2b(sf)} {fl(raw.astype(float))}")
                 else:
                     ii = np.iinfo(raw.dtype)
-                    out.append(f"wavpcm {c['norm']} {f2b(sf)} {f2b(ii.min)} {f2b(ii.max)} {fl(raw.astype(float))}")
+                    out.append(f"wavpcm {c['norm'] or 'none'} {f2b(sf)} {f2b(ii.min)} {f2b(ii.max)} {fl(raw.astype(float))}")
         return out
 
     def filt_line(self, c, cal, pol):
@@ -572,6 +740,8 @@ class C08(FloatSpec):
         cal = mkcal(c['cal'])
         k, L, pol = c['kind'], c['L'], c['pol']
         R = [('ok',)]
+        if c.get('huge'):
+            return R
         if k == 'wav' and wav_raw(c) is None:
             return R                                   # resampled playback (resample_fft): oracle only
         if k == 'blclick' and blclick_geometry(c) is None:
